@@ -383,11 +383,17 @@ struct Engine {
         s.stepi = 3, s.stepj = 0x7D, s.stepi0 = 0x0005, s.stepj0 = 0xFFF9;
         if (variant & 1)
             s.cmd = 0;
+        if (variant >= 4) { // modulo addressing on for every register, each at the end (variant 4) or the start (variant 5) of its 8-word buffer:
+                            // the forms that carry a modulo-disable flag step linearly, the others wrap
+            s.modi = s.modj = 7;
+            for (int k = 0; k < 8; ++k)
+                s.m[k] = 1, s.br[k] = 0, s.r[k] = (u16)((s.r[k] & ~7) | (variant == 4 ? 7 : 0));
+        }
         return s;
     }
     // E: every opcode whose form names address registers with steps: the registers step as configured
     void GenericStep(u16 op, const DecodeInfo& d) {
-        for (int variant = 0; variant < 4; ++variant) {
+        for (int variant = 0; variant < 6; ++variant) {
             VState s = GenericState(variant);
             std::vector<Use> uses;
             if (!UsesOf(d, s, uses))
